@@ -30,3 +30,4 @@ open Mud.C02
 #print axioms rk4_not_pure
 #print axioms Mud.StepThm.shStep_common
 #print axioms Mud.StepThm.shRun_rho_valid
+#print axioms Mud.StepThm.afStep_rho
